@@ -7,7 +7,7 @@
 #define _GNU_SOURCE
 #include "cglue.h"
 
-enum { D_MKTYPE, D_COOL, D_LOOKUP, D_SWEEP, D_CONC, D_CAST, D_NOPS };
+enum { D_MKTYPE, D_COOL, D_LOOKUP, D_SWEEP, D_CONC, D_CAST, D_RMTYPE, D_NOPS };
 static const OpInfo OPS[D_NOPS] = {
   [D_MKTYPE] = { "mktype", 3 },   /* ninst nbuiltin seed */
   [D_COOL]   = { "cool", 1 },     /* type */
@@ -15,6 +15,7 @@ static const OpInfo OPS[D_NOPS] = {
   [D_SWEEP]  = { "sweep", 2 },    /* type order-seed */
   [D_CONC]   = { "conc", 3 },     /* type nthreads order-seed */
   [D_CAST]   = { "cast", 2 },     /* type other-type */
+  [D_RMTYPE] = { "rmtype", 4 },   /* which ninst nbuiltin seed: delete a run-time type and create another one (its address may be reused) */
 };
 
 #define NCLS 30
@@ -156,8 +157,9 @@ static var conc_entry(var args) {
   return NULL;
 }
 
+static int g_replace_slot = -1;
 static void mktype(int ninst, int nbuiltin, uint64_t seed) {
-  if (g_nrt >= MAXRT) return;
+  if (g_nrt >= MAXRT && g_replace_slot < 0) return;
   Rng r; rng_seed(&r, seed, 5, STREAM_AUX);
   ninst = ((ninst % 257) + 257) % 257;
   nbuiltin = ((nbuiltin % (NCLS + 1)) + NCLS + 1) % (NCLS + 1);
@@ -169,8 +171,10 @@ static void mktype(int ninst, int nbuiltin, uint64_t seed) {
     g_nrc++;
   }
   var args = new_raw(Tuple);
-  snprintf(g_names[g_nrt], 16, "Dyn%d", g_nrt);
-  push(args, new_raw(String, $S(g_names[g_nrt])));
+  int slot = g_replace_slot >= 0 ? g_replace_slot : g_nrt;
+  static int serial;
+  snprintf(g_names[slot], 16, "Dyn%d", slot + MAXRT * (serial++ / MAXRT));
+  push(args, new_raw(String, $S(g_names[slot])));
   push(args, new_raw(Int, $I(24)));
   /* instance list: nbuiltin built-in classes (distinct, seeded choice) + run-time classes, shuffled */
   static int pick[512];
@@ -190,8 +194,10 @@ static void mktype(int ninst, int nbuiltin, uint64_t seed) {
   }
   var t = new_raw_with(Type, args);
   /* the name string must outlive the type (Type_New keeps the pointer) */
-  ((struct Type*)t)[CELLO_CACHE_NUM / 3].inst = g_names[g_nrt];
-  RT[g_nrt++] = t;
+  ((struct Type*)t)[CELLO_CACHE_NUM / 3].inst = g_names[slot];
+  RT[slot] = t;
+  if (g_replace_slot < 0) g_nrt++;
+  g_replace_slot = -1;
   if (raw_count(t) != n) DV("C08:harness:record", "run-time type has %d instances, expected %d", raw_count(t), n);
   stat_max("disp.max_instances", n);
   stat_add("disp.runtime_types", 1);
@@ -218,6 +224,18 @@ static void dispatch_execute(const Plan* p) {
         if (t is u) { if (ex || r isnt obj) DV("C08:cast-same-type-failed", "cast to the object's own type failed"); }
         else if (ex isnt ValueError) DV("C08:cast-no-valueerror", "cast(<%s>, %s) raised %s instead of ValueError", raw_name_of(t), raw_name_of(u), exc_name(ex));
         stat_add("disp.casts", 1);
+        break; }
+      case D_RMTYPE: {
+        if (g_nrt == 0) break;
+        int k = (int)(((o->a[0] % g_nrt) + g_nrt) % g_nrt);
+        var old = RT[k];
+        sweep(old, (uint64_t)o->a[3], 0);            /* the dying type's lookups are the most recent ones */
+        del_raw(old);
+        g_replace_slot = k;
+        mktype((int)o->a[1], (int)o->a[2], (uint64_t)o->a[3] + 1);
+        if (RT[k] is old) stat_add("disp.type_address_reused", 1);
+        sweep(RT[k], (uint64_t)o->a[3] + 2, 0);
+        stat_add("disp.types_replaced", 1);
         break; }
       case D_CONC: {
         var t = type_at(o->a[0]);
@@ -252,7 +270,8 @@ static void dispatch_generate(Plan* p, Rng* r) {
     if (d < 25) plan_add(p, D_LOOKUP, 0, 0, t, rng_below(r, 300), rng_below(r, 8), 0, 0, 0);
     else if (d < 45) plan_add(p, D_SWEEP, 0, 0, t, (int64_t)rng_below(r, 1000000), 0, 0, 0, 0);
     else if (d < 60) plan_add(p, D_COOL, 0, 0, t, 0, 0, 0, 0, 0);
-    else if (d < 70) plan_add(p, D_CAST, 0, 0, t, rng_below(r, NBUILTIN_T + 3), 0, 0, 0, 0);
+    else if (d < 68) plan_add(p, D_CAST, 0, 0, t, rng_below(r, NBUILTIN_T + 3), 0, 0, 0, 0);
+    else if (d < 76) plan_add(p, D_RMTYPE, 0, 0, rng_below(r, 8), sizes[rng_below(r, 14)], rng_below(r, NCLS + 1), (int64_t)rng_below(r, 1000000), 0, 0);
     else plan_add(p, D_CONC, 0, 0, t, rng_below(r, 15), (int64_t)rng_below(r, 1000000), 0, 0, 0);
   }
 }
